@@ -179,8 +179,15 @@ def shift_case(srv, part, rng):
         lim = ";UNTIL=" + until.strftime("%Y%m%d")
     part.evaluations += 1
     N = 70
+    # INTERVAL > 1: the unshifted reference has to start a whole number of periods earlier
+    iv = rng.choice([1, 1, 1, 2, 3])
+    if iv > 1:
+        base = base.replace(";", ";INTERVAL=%d;" % iv, 1)
     # unshifted expansion from well before DTSTART (shifted-in occurrences) ...
-    early = dtstart - D.timedelta(days=800)
+    if base.startswith("FREQ=YEARLY"):
+        early = dtstart.replace(year=dtstart.year - 3 * iv)
+    else:
+        early = dtstart.replace(year=dtstart.year - 2 * iv)      # 24 * iv months
     U, u_ended, _ = pop(srv, event(early, base), N + 60)
     got, g_ended, _ = pop(srv, event(dtstart, base + ";SHIFT=" + stext + lim), N)
     if any(isinstance(x, tuple) for x in U + got) or len(U) < 10:
